@@ -42,9 +42,6 @@ func (g *Generator) RootName(fileName string) string {
 	return c.Identifierize(fileName)
 }
 
-func (g *Generator) Run(fileName string) (string, error) {
-	if err := g.DoFile(fileName); err != nil {
-		return "", err
-	}
-	return g.RootName(fileName), nil
+func (g *Generator) Describe(fileName string) string {
+	return g.RootName(fileName)
 }
